@@ -95,12 +95,20 @@ class MTSPEnv(RL4COEnvBase):
         # If done is True, then we make the depot available again, so that it will be selected as the next node with prob 1
         available[..., 0] = torch.logical_or(done, available[..., 0])
 
-        # Update the current length
-        current_length = td["current_length"] + get_distance(cur_loc, prev_loc)
+        # Rows that had already finished before this step are only being padded (while other
+        # instances of the batch are still running): their tour must not grow any more
+        was_done = torch.count_nonzero(td["action_mask"][..., 1:], dim=-1) == 0
 
-        # If done, we add the distance from the current_node to the depot as well
+        # Update the current length
+        current_length = td["current_length"] + get_distance(cur_loc, prev_loc) * (
+            ~was_done
+        ).float()
+
+        # If done, we add the distance from the current_node to the depot as well (only once)
         current_length = torch.where(
-            done, current_length + get_distance(cur_loc, depot_loc), current_length
+            done & ~was_done,
+            current_length + get_distance(cur_loc, depot_loc),
+            current_length,
         )
 
         # We update the max_subtour_length and reset the current_length
